@@ -579,7 +579,10 @@ func (m *c19Mat) edVal(ed *types.EntityDescriptor) string {
 // ---------------------------------------------------------------- generators
 
 var c19Strings = []string{"https://sp.example.com/metadata", "https://sp.example.com/saml/acs", "https://sp.example.com/saml/slo", "",
-	"https://sp.example.com/?a=1&b=<2>\"q\"'s'", "urn:sp:üñîçødé:日本語", "sp with  spaces\tand\nnewline", "😀://astral", "]]>", "&amp;already", "<!--x-->", "a"}
+	"https://sp.example.com/?a=1&b=<2>\"q\"'s'", "urn:sp:üñîçødé:日本語", "sp with  spaces\tand\nnewline", "😀://astral", "]]>", "&amp;already", "<!--x-->", "a",
+	// endpoint URLs that a URL "normaliser" would re-spell: they are configuration strings and must be published as given
+	"HTTPS://SP.Example.COM/saml/acs", "https://sp.example.com/mandant/münchen/acs", "https://sp.example.com/a b/acs", "https://sp.example.com/%7euser/a%2fb",
+	"https://sp.example.com:443/acs/../acs?x=%zz#frag"}
 
 var c19Algs = []string{"", "", dsig.RSASHA256SignatureMethod, dsig.RSASHA1SignatureMethod, dsig.RSASHA512SignatureMethod, dsig.ECDSASHA256SignatureMethod, "urn:bogus"}
 
